@@ -24,6 +24,11 @@ type H struct {
 	Nest    bool `json:"nest,omitempty"`    // sync only: publishes a nested event (100+id*10+handler) on top-level events
 	Seq     bool `json:"seq,omitempty"`     // subscribed with Sequential()
 	Yield   int  `json:"yield,omitempty"`   // Gosched calls inside the handler (widens overlap between concurrent publishers)
+	// Replay: on a bus with a store, a handler without context is subscribed
+	// through SubscribeWithReplay (the log is empty then, so it is a live
+	// subscription that also records its position): cancellation applies
+	// to it like to any other handler.
+	Replay bool `json:"replay,omitempty"`
 }
 
 type Pub struct {
@@ -33,6 +38,8 @@ type Pub struct {
 	// context types but an implementation of its own (own Done channel and
 	// Err, values delegated) - a merged or framework context.
 	Foreign bool `json:"foreign,omitempty"`
+	// Any: published through the static type any (Publish[any]).
+	Any bool `json:"any,omitempty"`
 }
 
 // foreignCtx is a context.Context implemented outside the context package.
@@ -230,6 +237,8 @@ func Run(c *Case) *vkit.Outcome {
 		var err error
 		if h.Ctx {
 			err = eventbus.SubscribeContext(bus, func(ctx context.Context, e Ev) { body(hi, ctx, e.ID) }, so...)
+		} else if h.Replay && c.Store != "" {
+			err = eventbus.SubscribeWithReplay(context.Background(), bus, fmt.Sprintf("sub-%d", hi), func(e Ev) { body(hi, nil, e.ID) }, so...)
 		} else {
 			err = eventbus.Subscribe(bus, func(e Ev) { body(hi, nil, e.ID) }, so...)
 		}
@@ -260,9 +269,14 @@ func Run(c *Case) *vkit.Outcome {
 		pubs[id] = ps
 		mu.Unlock()
 		add(rec{"pubcall", id, -1})
-		if ps.ctx == nil {
+		switch {
+		case p.Any && ps.ctx == nil:
+			eventbus.Publish[any](bus, Ev{id})
+		case p.Any:
+			eventbus.PublishContext[any](bus, ps.ctx, Ev{id})
+		case ps.ctx == nil:
 			eventbus.Publish(bus, Ev{id})
-		} else {
+		default:
 			eventbus.PublishContext(bus, ps.ctx, Ev{id})
 		}
 		add(rec{"pubret", id, -1})
